@@ -438,14 +438,20 @@ class Check:
         rc, out, dt = _run(["coqchk", "-silent", "-o", *area_flags(self.area), *mods], timeout)
         self.checker_cmds.append("coqchk -silent -o " + " ".join(mods))
         axioms = []
+        unsafe = []
         if "Axioms:" in out:
-            tail = out.split("Axioms:", 1)[1]
-            axioms = [l.strip() for l in tail.splitlines() if l.strip() and not l.startswith("*")]
+            tail = out.split("Axioms:", 1)[1].split("\n*", 1)[0]
+            axioms = [l.strip() for l in tail.splitlines() if l.strip() and l.strip() != "<none>"]
+        for label in ("type-in-type:", "unsafe (co)fixpoints:", "positivity is assumed:"):
+            if label in out:
+                blk = out.split(label, 1)[1].split("\n*", 1)[0]
+                unsafe += [f"{label} {l.strip()}" for l in blk.splitlines() if l.strip() and l.strip() != "<none>"]
         bad = [a for a in axioms
                if a.split(".")[-1] not in {x.split(".")[-1] for x in ALLOWED_AXIOMS}
                and not any(p.rstrip(".") in a for p in ("PrimFloat", "Uint63", "PrimInt63", "FloatOps", "Float64"))]
         self.axioms["coqchk"] = axioms
-        self.obligation("coqchk", "audit", rc == 0 and not bad, out[-1500:] if (rc or bad) else "")
+        self.obligation("coqchk", "audit", rc == 0 and not bad and not unsafe,
+                        out[-1500:] if (rc or bad or unsafe) else "")
 
     def obligation(self, name, kind, ok, detail=""):
         self.obligations.append({"name": name, "kind": kind, "ok": bool(ok), "detail": detail})
